@@ -64,6 +64,17 @@ func c05Run(c *core.Ctx) {
 			}
 		}
 	}
+	for _, fam := range []string{"php7", "php5"} {
+		f := corpus.MustFam(fam)
+		wideItems(f, true, func(it *corpus.Item, src, why string) {
+			if c.Next() {
+				c05One(c, mkCase(src, f.V, why))
+			}
+			if it.R != nil && src == it.Src && c.Next() {
+				c05One(c, mkCase(corpus.Layout(it.R, "\r\n//c\r\n", "\n "), f.V, why))
+			}
+		})
+	}
 	for _, src := range corpus.Specials() {
 		for _, v := range []*version.Version{drive.V74, drive.V56} {
 			if !c.Next() {
